@@ -729,8 +729,111 @@ def odd_names_and_moved_items_stream(ctx, res):
             os.environ.pop("CINCO_T_C14M_VERIFY", None)
 
 
+def constructor_items_and_falsy_options_stream(ctx, res):
+    """(a) a variable whose field's validator reads ANOTHER field that the application gives to the constructor (`Server(tls=True)`):
+    the variable is validated against a configuration that already holds the constructor's values — a valid combination builds, an
+    invalid one fails with a validation error naming the bound field; (b) an invalid variable of a field INSIDE a list item given as a
+    map (appended, assigned, loaded; an item of an item) fails with a validation error that names the bound field; (c) an explicit
+    command-line option that is FALSY (`--no-x`, 0, '') is still an assignment: it beats a set variable"""
+    import argparse
+    import os
+    import cincoconfig as cc
+    # (a)
+    def port_rule(cfg, v):
+        if cfg.tls and v < 1024:
+            raise ValueError("a TLS port must be >= 1024")
+        return v
+    srv = cc.Schema(env="CINCO_T_C14S")
+    srv.tls = cc.BoolField(default=False, env=False)
+    srv.base = cc.StringField(default="/", env=False)
+    srv.port = cc.IntField(default=8080, validator=port_rule)
+    srv.log = cc.StringField(default="x.log", validator=lambda cfg, v: cfg.base + v)
+    Server = cc.make_type(srv, "C14Server")
+    for typed in (False, True):
+        for port_text, tls, ok in (("8443", True, True), ("80", True, False), ("80", False, True)):
+            os.environ["CINCO_T_C14S_PORT"] = port_text
+            os.environ["CINCO_T_C14S_LOG"] = "server.log"
+            case = {"stream": "constructor-values", "config_type": typed, "variable": port_text, "tls": tls}
+            res.case(stable(case), kind="constructor-values")
+            try:
+                try:
+                    cfg = (Server if typed else srv)(tls=tls, base="/data/")
+                    got, err = (cfg.port, cfg.log), None
+                except Exception as e:  # noqa
+                    got, err = None, e
+            finally:
+                os.environ.pop("CINCO_T_C14S_PORT", None)
+                os.environ.pop("CINCO_T_C14S_LOG", None)
+            if ok and got != (int(port_text), "/data/server.log"):
+                res.violate("C14:variable-not-held", "a variable whose validator reads a field given to the constructor was not validated against the constructor's values",
+                            dict(case, got=repr(got), error=None if err is None else "%s: %s" % (type(err).__name__, str(err)[:80])))
+            elif not ok and (err is None or not isinstance(err, cc.ValidationError) or "port" not in str(err) or "1024" not in str(err)):
+                res.violate("C14:invalid-variable-error", "an invalid variable (invalid given the constructor's values) did not make construction fail with a validation error naming the "
+                            "field and the reason", dict(case, error=None if err is None else "%s: %s" % (type(err).__name__, str(err)[:80])))
+    # (b)
+    probe = cc.Schema()
+    probe.interval = cc.IntField(default=5, min=1, env="CINCO_T_C14I_INTERVAL")
+    node = cc.Schema()
+    node.host = cc.StringField(default="h")
+    node.port = cc.PortField(default=1, env="CINCO_T_C14I_PORT")
+    node.health.probes = cc.ListField(probe, default=lambda: [])
+    for typed in (False, True):
+        N = cc.make_type(node, "C14ItemNode") if typed else node
+        s = cc.Schema()
+        s.cluster.nodes = cc.ListField(N, default=lambda: [])
+        for var, text, field_name in (("CINCO_T_C14I_PORT", "70000", "port"), ("CINCO_T_C14I_INTERVAL", "0", "interval")):
+            for route in ("append", "assign", "load_tree"):
+                os.environ[var] = text
+                case = {"stream": "item-variable", "config_type": typed, "variable": var, "route": route}
+                res.case(stable(case), kind="item-variable")
+                try:
+                    cfg = s()
+                    item = {"host": "n1", "health": {"probes": [{}]}}
+                    try:
+                        if route == "append":
+                            cfg.cluster.nodes.append(item)
+                        elif route == "assign":
+                            cfg.cluster.nodes = [item]
+                        else:
+                            cfg.load_tree({"cluster": {"nodes": [item]}})
+                        err = None
+                    except Exception as e:  # noqa
+                        err = e
+                finally:
+                    os.environ.pop(var, None)
+                if err is None or not isinstance(err, cc.ValidationError) or getattr(err.field, "_key", None) != field_name or field_name not in str(err):
+                    res.violate("C14:invalid-variable-error", "an invalid variable of a field inside a list item did not fail with a validation error naming the bound field",
+                                dict(case, error=None if err is None else "%s: %s" % (type(err).__name__, str(err)[:100]), field=getattr(getattr(err, "field", None), "_key", None)))
+    # (c)
+    app = cc.Schema(env="CINCO_T_C14F")
+    app.tls = cc.BoolField(default=False)
+    app.workers = cc.IntField(default=1)
+    app.name = cc.StringField(default="n")
+    app.http.client.verify = cc.BoolField(default=False)
+    app.http.client.retries = cc.IntField(default=3)
+    env = {"CINCO_T_C14F_TLS": "true", "CINCO_T_C14F_WORKERS": "8", "CINCO_T_C14F_NAME": "from-env", "CINCO_T_C14F_HTTP_CLIENT_VERIFY": "yes", "CINCO_T_C14F_HTTP_CLIENT_RETRIES": "9"}
+    os.environ.update(env)
+    try:
+        parser = cc.generate_argparse_parser(app)
+        for argv, ns, path, want in ((["--no-tls"], None, "tls", False), (["--no-http-client-verify"], None, "http.client.verify", False),
+                                     (None, {"workers": 0}, "workers", 0), (None, {"http.client.retries": "0"}, "http.client.retries", 0), (None, {"name": ""}, "name", "")):
+            cfg = app()
+            case = {"stream": "falsy-option", "option": argv or ns}
+            res.case(stable(case), kind="falsy-option")
+            try:
+                cc.cmdline_args_override(cfg, parser.parse_args(argv) if argv else argparse.Namespace(**ns))
+                got = cfg[path]
+            except BaseException as e:  # noqa
+                got = "raised %s" % type(e).__name__
+            if got != want or type(got) is not type(want):
+                res.violate("C14:assignment-lost-against-variable", "an explicit command-line option whose value is falsy did not override the set variable", dict(case, held=repr(got), want=repr(want)))
+    finally:
+        for k in env:
+            os.environ.pop(k, None)
+
 def run(ctx, n_quick=120, n_thorough=4000):
     res = Result()
+    guard(res, "C14", constructor_items_and_falsy_options_stream, ctx, res)
     guard(res, "C14", names_stream, ctx, res)
     guard(res, "C14", precedence_stream, ctx, res, ctx.n(n_quick, n_thorough))
     guard(res, "C14", special_stream, ctx, res, ctx.n(60, 1500))
